@@ -121,6 +121,9 @@ pub struct Profile {
     pub max_depth: usize,
     pub max_parents: usize,
     pub sleep_us: (u32, u32),
+    /// this many sleeps of the program last a little over one second (durations whose seconds
+    /// part is not zero)
+    pub long_sleeps: u32,
     /// finish roots last in the close-out (needed to get complete traces with cancelable)
     pub p_roots_last: u32,
     /// probability (per mille) that a root is finished only after all its descendants
@@ -152,6 +155,7 @@ impl Default for Profile {
             max_depth: 10,
             max_parents: 4,
             sleep_us: (20, 400),
+            long_sleeps: 0,
             p_roots_last: 600,
             cancelable: false,
             adapter_kinds: vec![AKind::Future],
@@ -184,6 +188,7 @@ pub struct Gen<'a> {
     no_exit: HashSet<usize>,
     /// per thread: flat index of the probe taken before each open frame was pushed
     probe_stack: Vec<Vec<Option<usize>>>,
+    long_sleeps_done: u32,
 }
 
 impl<'a> Gen<'a> {
@@ -198,6 +203,7 @@ impl<'a> Gen<'a> {
             pf,
             prog: Program::new(id, nthreads, pf.cancelable, str_mode, auto_base),
             probe_stack,
+            long_sleeps_done: 0,
             used_tids: HashSet::new(),
             ctx_ops: vec![],
             set_pushed: Default::default(),
@@ -345,7 +351,11 @@ impl<'a> Gen<'a> {
         if weights.iter().all(|x| *x == 0) {
             return None;
         }
-        let k = self.rng.weighted(&weights);
+        // long sleeps are placed where a local span is open on this thread
+        let long_now = self.long_sleeps_done < self.pf.long_sleeps
+            && matches!(self.m().threads[t].frames.last(), Some(Frame::Local { l: Some(_) }))
+            && self.rng.chance(1, 2);
+        let k = if long_now { 22 } else { self.rng.weighted(&weights) };
         let op = match k {
             0 => {
                 let (np, k0) = self.np();
@@ -440,7 +450,14 @@ impl<'a> Gen<'a> {
                 let from = *self.rng.pick(&self.ctx_ops);
                 Op::RootFromCtx { l: new_span_label(), from, via_text: self.rng.chance(1, 2) }
             }
-            22 => Op::Sleep { us: self.rng.range(self.pf.sleep_us.0 as usize, self.pf.sleep_us.1 as usize) as u32 },
+            22 => {
+                if long_now {
+                    self.long_sleeps_done += 1;
+                    Op::Sleep { us: self.rng.range(1_000_100, 1_250_000) as u32 }
+                } else {
+                    Op::Sleep { us: self.rng.range(self.pf.sleep_us.0 as usize, self.pf.sleep_us.1 as usize) as u32 }
+                }
+            }
             23 => Op::Exit,
             24 => {
                 let kind = *self.rng.pick(&self.pf.adapter_kinds);
